@@ -14,8 +14,8 @@ PROPS["C13"] = dict(
                "states (each class parsed from its own serialization with every value of the first four octets, Dot11 type/subtype setters, API-built packets, parsed seeds/mutations), "
                "because nothing but convention keeps pdu_type()/matches_flag() independent of field values.",
     level_note="Trusted: the header scanner finds every PDU class (classes it cannot construct make the run fail, not pass); RTTI; gcc UBSan vptr check as a second oracle.",
-    phases=[dict(name="pairs", harness="c13.cpp", flavor="asan", cases=dict(quick=160, thorough=160), watchdog=120),
-            dict(name="objects", harness="c13.cpp", flavor="asan", mode="objects", cases=dict(quick=6000, thorough=300000), watchdog=120)],
+    phases=[dict(name="pairs", harness="c13.cpp", flavor="asan", cases=dict(quick=160, thorough=160), watchdog=600),
+            dict(name="objects", harness="c13.cpp", flavor="asan", mode="objects", cases=dict(quick=6000, thorough=300000), watchdog=600)],
     rule="every (K,T): K = each concrete PDU class found in the current headers (default-constructed; RawPDU/PPI from minimal "
          "arguments) and PDUCacher<K>, T = each class with a pdu_flag and PDUCacher<X> of each; on the object alone and inside EthernetII/K; a pair is one "
          "distinct case; all pairs are enumerated (finite space, exhaustive)",
